@@ -60,6 +60,14 @@ def gen_c18(tier: str, rng: random.Random) -> Iterator[Dict[str, Any]]:
         for i in range(1, n + 1):
             steps += [build.h2_headers(i, 2 * i - 1, "GET", toks=[["/ka%d" % i, "/ka%d" % i]]), {"s": "dt", "d": 0.05}]
         yield h2_script(steps, {"*": resp}, "c18/kamax/h2/%d" % kamax, cfg={"keep_alive_max_requests": kamax})
+        # ... with a server push on the first request (a pushed stream is counted too, and twice: the counter
+        # does not pass through every value) and two more requests than before
+        pusher = [["recv_body"], ["send", {"type": "http.response.push", "path": "/pushed", "headers": [], "cls": "ok"}]] + \
+            build.simple_resp_program(chunks=[2], read_first=False)
+        steps = []
+        for i in range(1, n + 3):
+            steps += [build.h2_headers(i, 2 * i - 1, "GET", toks=[["/kp%d" % i, "/kp%d" % i]]), {"s": "dt", "d": 0.05}]
+        yield h2_script(steps, {"1": pusher, "*": resp}, "c18/kamax/h2-push/%d" % kamax, cfg={"keep_alive_max_requests": kamax})
     # h2_max_concurrent_streams
     for conc in (1, 2, 3):
         gated = [["recv_body"], ["gate"]] + build.simple_resp_program(chunks=[2], read_first=False)
